@@ -12,8 +12,39 @@ fn fmesh(m: &(Vec<P3>, Vec<[u32; 3]>)) -> String {
     s
 }
 
+fn ftris(t: &[[u32; 3]]) -> String {
+    let mut s = format!("{}", t.len());
+    for t in t { s.push_str(&format!(" {} {} {}", t[0], t[1], t[2])); }
+    s
+}
+fn fidx(m: &(Vec<P3>, Vec<[u32; 3]>)) -> String { format!("{} {}", m.0.len(), ftris(&m.1)) }
+
 pub fn exec(func: &str, a: &mut Args) -> String {
+    use crate::p3::transformation::utils as tu;
     match func {
+        // index generators of transformation/utils.rs, called directly
+        "rect_idx" => { let (ul, ur, dl, dr) = (a.u() as u32, a.u() as u32, a.u() as u32, a.u() as u32);
+            let mut out = Vec::new(); tu::push_rectangle_indices(ul, ur, dl, dr, &mut out); ftris(&out) }
+        "open_ring_idx" => { let (bl, bu, n) = (a.u() as u32, a.u() as u32, a.u() as u32);
+            let mut out = Vec::new(); tu::push_open_ring_indices(bl, bu, n, &mut out); ftris(&out) }
+        "ring_idx" => { let (bl, bu, n) = (a.u() as u32, a.u() as u32, a.u() as u32);
+            let mut out = Vec::new(); tu::push_ring_indices(bl, bu, n, &mut out); ftris(&out) }
+        "deg_open_top_idx" => { let (bc, pt, n) = (a.u() as u32, a.u() as u32, a.u() as u32);
+            let mut out = Vec::new(); tu::push_degenerate_open_top_ring_indices(bc, pt, n, &mut out); ftris(&out) }
+        "deg_top_idx" => { let (bc, pt, n) = (a.u() as u32, a.u() as u32, a.u() as u32);
+            let mut out = Vec::new(); tu::push_degenerate_top_ring_indices(bc, pt, n, &mut out); ftris(&out) }
+        "filled_circle_idx" => { let (bc, n) = (a.u() as u32, a.u() as u32);
+            let mut out = Vec::new(); tu::push_filled_circle_indices(bc, n, &mut out); ftris(&out) }
+        "reverse_cw_idx" => { let k = a.u(); let mut t: Vec<[u32; 3]> = (0..k).map(|_| [a.u() as u32, a.u() as u32, a.u() as u32]).collect();
+            tu::reverse_clockwising(&mut t); ftris(&t) }
+        "push_circle" => { let r = a.f(); let n = a.u() as u32; let dt = a.f(); let y = a.f(); let _full = a.b();
+            let mut out: Vec<P3> = Vec::new(); tu::push_circle(r, n, dt, y, &mut out);
+            let mut s = format!("{}", out.len()); for p in &out { s.push(' '); s.push_str(&d3::fp(p)); } s }
+        // index buffers of the discretized primitives (the sizes do not influence the indices)
+        "cone_indices" => { let n = a.u() as u32; fidx(&Cone::new(1.0, 0.5).to_trimesh(n)) }
+        "cyl_indices" => { let n = a.u() as u32; fidx(&Cylinder::new(1.0, 0.5).to_trimesh(n)) }
+        "ball_indices" => { let nt = a.u() as u32; let np = a.u() as u32; fidx(&Ball::new(0.5).to_trimesh(nt, np)) }
+        "capsule_indices" => { let nt = a.u() as u32; let np = a.u() as u32; fidx(&Capsule::new_y(1.0, 0.5).to_trimesh(nt, np)) }
         "cuboid_scaled" => { let he = d3::v(a); let s = d3::v(a); d3::fv(&Cuboid::new(he).scaled(&s).half_extents) }
         "halfspace_scaled" => { let n = d3::v(a); let s = d3::v(a);
             match HalfSpace::new(Unit::new_unchecked(n)).scaled(&s) { None => "none".into(), Some(h) => format!("some {}", d3::fv(&h.normal)) } }
@@ -67,6 +98,48 @@ fn unit3(r: &mut Rng, lat: bool) -> d3::Vector<f64> {
     else { loop { let v = d3::gen_v(r, false, 1.0); if v.norm() > 0.1 { return v.normalize(); } } }
 }
 
+/// index generators and index buffers: every subdivision count 3..=64 for cone/cylinder, a grid + random for the two-parameter ones
+fn gen_topo(r: &mut Rng, thorough: bool, v: &mut Vec<(String, String)>) {
+    for n in 3..=64u64 {
+        v.push(("cone_indices".into(), format!("{}", n)));
+        v.push(("cyl_indices".into(), format!("{}", n)));
+    }
+    let (gt, gp) = if thorough { (24, 16) } else { (10, 8) };
+    for nt in 3..=gt { for np in 2..=gp {
+        v.push(("ball_indices".into(), format!("{} {}", nt, np)));
+        v.push(("capsule_indices".into(), format!("{} {}", nt, np)));
+    } }
+    for _ in 0..(if thorough { 300 } else { 40 }) {
+        v.push(("ball_indices".into(), format!("{} {}", 3 + r.below(62), 2 + r.below(63))));
+        v.push(("capsule_indices".into(), format!("{} {}", 3 + r.below(62), 2 + r.below(63))));
+    }
+    for it in 0..(if thorough { 1000 } else { 150 }) {
+        let lat = it % 2 == 0;
+        let n = if it < 64 { 1 + it } else { 1 + r.below(64) };
+        let rad = r.pos_extent(lat); let y = if lat { r.lattice(16, 2) } else { r.uniform(-10.0, 10.0) };
+        // dtheta exactly as the discretizers compute it: 2π/n (cone, ball) or 2π·(1/n) (cylinder); or an arbitrary step
+        let two_pi = std::f64::consts::PI * 2.0;
+        let (dt, full) = match r.below(3) { 0 => (two_pi / (n as f64), true), 1 => (two_pi * (1.0 / (n as f64)), true), _ => (r.uniform(-1.0, 1.0), false) };
+        v.push(("push_circle".into(), format!("{} {} {} {} {}", hx(rad), n, hx(dt), hx(y), b(full))));
+    }
+    for it in 0..(if thorough { 2000 } else { 250 }) {
+        let n = if it < 64 { 1 + it } else { 1 + r.below(64) };
+        // bases: stacked circles (as used by the assemblies), far apart, or arbitrary (possibly overlapping)
+        let bl = r.below(200);
+        let bu = match r.below(4) { 0 => bl + n, 1 => bl + n + r.below(50), 2 => r.below(200), _ => if bl >= n { bl - n } else { bl + n } };
+        v.push(("ring_idx".into(), format!("{} {} {}", bl, bu, n)));
+        v.push(("open_ring_idx".into(), format!("{} {} {}", bl, bu, n)));
+        let pt = match r.below(3) { 0 => bl + n, 1 => if bl > 0 { bl - 1 } else { bl + n }, _ => r.below(300) };
+        v.push(("deg_top_idx".into(), format!("{} {} {}", bl, pt, n)));
+        v.push(("deg_open_top_idx".into(), format!("{} {} {}", bl, pt, n)));
+        v.push(("filled_circle_idx".into(), format!("{} {}", bl, n)));
+        v.push(("rect_idx".into(), format!("{} {} {} {}", r.below(50), r.below(50), r.below(50), r.below(50))));
+        let k = r.below(12);
+        let tris: Vec<String> = (0..k).map(|_| format!("{} {} {}", r.below(100), r.below(100), r.below(100))).collect();
+        v.push(("reverse_cw_idx".into(), format!("{} {}", k, tris.join(" ")).trim_end().to_string()));
+    }
+}
+
 pub fn gen(r: &mut Rng, thorough: bool) -> Vec<(String, String)> {
     let n = if thorough { 3000 } else { 400 };
     let mut v = Vec::new();
@@ -108,5 +181,6 @@ pub fn gen(r: &mut Rng, thorough: bool) -> Vec<(String, String)> {
             v.push(("cuboid_trimesh".into(), d3::hv(&d3::gen_he(r, lat))));
         }
     }
+    gen_topo(r, thorough, &mut v);
     v
 }
